@@ -8,6 +8,15 @@ VERIF = "/verif"
 def run(cmd, **kw):
     return subprocess.run(cmd, capture_output=True, text=True, **kw)
 
+RESULTS = f"{VERIF}/selftest/catches.json"
+def record(name, prop, patch, obls, replayed, builds):
+    """which obligations caught which change: kept in selftest/catches.json (rendered by scripts/catches.py)"""
+    try: d = json.load(open(RESULTS))
+    except Exception: d = {}
+    d[f"{name}/{prop}"] = {"change": name, "property": prop, "kind": "seeded (independent sub-agent)" if patch.endswith("patch.diff") else "mutant",
+                           "obligations": sorted(set(obls)), "failing_input_replayed": replayed, "builds": builds}
+    json.dump(d, open(RESULTS, "w"), indent=1, sort_keys=True)
+
 def main():
     want = [a for a in sys.argv[1:] if not a.startswith("--")]
     only = None
@@ -54,7 +63,7 @@ def main():
                 results.append((name, False)); 
                 run(["rsync", "-a", "--delete", "--exclude", ".git", "/repo/", copy + "/"])
                 continue
-            b = run(["go", "build", "./analysis/...", "./generator/...", "./cmd/..."], cwd=copy, env=dict(env, GOFLAGS="-mod=mod", GOPROXY="off", GOSUMDB="off", GOTOOLCHAIN="local"))
+            b = run(["go", "build", "./analysis/", "./analysis/sql/", "./analysis/httpapi/", "./generator/...", "./cmd/"], cwd=copy, env=dict(env, GOFLAGS="-mod=mod", GOPROXY="off", GOSUMDB="off", GOTOOLCHAIN="local"))
             builds = "import cycle" in b.stderr or b.returncode == 0
             for p in ps:
                 t0 = time.time()
@@ -64,8 +73,12 @@ def main():
                 found = any("no-failing-input-found" not in l for l in viol)
                 print(f"{name} [{p}]: exit={r.returncode} {'CAUGHT' if caught else 'MISSED'}{' (failing input replayed)' if caught and found else (' (no-failing-input-found)' if caught else '')} builds={builds} ({time.time()-t0:.0f}s)")
                 if caught:
+                    obls = []
                     for l in r.stdout.splitlines():
-                        if l.startswith("govc: obligation"): print("    ", l[:200])
+                        if l.startswith("govc: obligation"):
+                            print("    ", l[:200])
+                            obls.append(l.split()[2])
+                    record(name, p, patch, obls, found, builds)
                 else:
                     print(r.stdout[-1500:], r.stderr[-800:])
                 results.append((name+"/"+p, caught))
